@@ -6,7 +6,7 @@
  *   force                              pin every dispatch to the best variant compiled in
  *   sha <align> <hex>                  SHA256_Buf on a buffer at address = align (mod 16)
  *   shaparts <align> <hex>...          SHA256_Init/Update* /Final, one Update per chunk
- *   xform <state32> <block64>          the static SHA256_Transform on an arbitrary chaining value
+ *   xform <state32> <block64>          the static SHA256_Transform on an arbitrary chaining value; L2 = W[0..63]
  *   crc <align> <hex>...               CRC32C_Init/Update* /Final, one Update per chunk; chunks are
  *                                      consecutive in ONE buffer whose first byte is at `align`
  *   aesblock <key> <block>             crypto_aes_key_expand + crypto_aes_encrypt_block
@@ -170,6 +170,7 @@ main(void)
 			hc_puthex(dig, 32);
 		} else if (hc_is("xform", 2)) {
 			uint32_t st[8];
+			static uint32_t W[64];
 
 			b = hc_unhex(hc_tok[1], &blen);
 			c = hc_unhex(hc_tok[2], &clen);
@@ -181,10 +182,18 @@ main(void)
 				SHA256_Init(&ctx);	/* makes sure the dispatch has been initialised */
 				for (i = 0; i < 8; i++)
 					st[i] = be32dec(&b[4 * i]);
-				hcpu_sha_transform(st, c);
+				memset(W, 0, sizeof(W));
+				hcpu_sha_transform(st, c, W);
 				for (i = 0; i < 8; i++)
 					be32enc(&dig[4 * i], st[i]);
 				hc_puthex(dig, 32);
+				/* L2: the message schedule left in W (not written by the SHA-NI variant) */
+				printf(" | W=");
+				if (strcmp(hcpu_sha_path(), "shani") == 0)
+					printf("-");
+				else
+					for (i = 0; i < 64; i++)
+						printf("%08x", W[i]);
 			}
 			free(b);
 			free(c);
